@@ -18,7 +18,9 @@
 package version
 
 import (
+	"errors"
 	"fmt"
+	"io"
 	"os"
 	"path/filepath"
 	"sync"
@@ -288,6 +290,14 @@ func (vs *storeVersionSet) recover() error {
 	for reader.Next() {
 		record, err := reader.Read()
 		if err != nil {
+			if errors.Is(err, io.ErrUnexpectedEOF) {
+				// the last record is cut short: the process died while the record was being written
+				// (a record larger than the write buffer reaches the file in several writes), its commit
+				// never returned. The journal ends before it; initJournal starts a new manifest.
+				versionLogger.Warn("manifest ends with a half-written record, ignore it",
+					logger.String("path", vs.storePath), logger.String("manifest", manifestPath))
+				break
+			}
 			return fmt.Errorf("recover data from manifest file error:%s", err)
 		}
 		editLog := newEmptyEditLogFunc()
